@@ -4,6 +4,7 @@ Synchronous Policy class - unified resilience container.
 Uses shared helpers from execution.py for circuit breaker integration.
 """
 
+import asyncio
 from collections.abc import Callable
 from typing import Any
 
@@ -100,7 +101,7 @@ class Policy:
             record_success(ctx)
             return result
 
-        except (KeyboardInterrupt, SystemExit):
+        except (asyncio.CancelledError, KeyboardInterrupt, SystemExit):
             record_cancel(ctx)
             raise
         except AbortRetryError as exc:
@@ -281,6 +282,10 @@ class Policy:
                 on_attempt_end=on_attempt_end,
                 capture_timeline=capture_timeline,
             )
+        except (asyncio.CancelledError, KeyboardInterrupt, SystemExit):
+            # Also subclasses that additionally derive from Exception.
+            record_cancel(ctx)
+            raise
         except RetryExhaustedError as exc:
             # Raised by the operation itself (nested policy): same record as call().
             record_failure(ctx, exc.last_class or ErrorClass.UNKNOWN)
@@ -335,7 +340,7 @@ class Policy:
                 )
             return build_aborted_outcome(ctx)
 
-        except (KeyboardInterrupt, SystemExit):
+        except (asyncio.CancelledError, KeyboardInterrupt, SystemExit):
             record_cancel(ctx)
             raise
 
